@@ -91,9 +91,10 @@ def file_content(inp, v, shape="granular"):
     if inp == "equip":
         return f"equipment,comp1,comp2\nequip1,{1 + v},1\nequip2,1,{1 + v}\nequip3,{2 + v},0\n"
     if inp == "source":
-        return ("component,source,EPR,ERS,repairable,duration,multiple_emissions\n"
-                f"comp1,test1,0.25,test1,TRUE,{300 + v},TRUE\n"
-                f"comp2,test2,0.25,test2,FALSE,{200 + v},TRUE\n")
+        # no duration / multiple_emissions columns: the virtual-world values apply (they are varied, see SHAPE)
+        return ("component,source,emissions_production_rate,emissions_rate_source,repairable\n"
+                f"comp1,test1,{0.2 + v / 10},test1,TRUE\n"
+                f"comp2,test2,{0.2 + v / 10},test2,FALSE\n")
     if inp == "emisRate":
         return ("test1,test2\nsample,sample\nlognorm,lognorm\n100000,100000\ngram,gram\nsecond,second\n"
                 f"{1 + v},{2 + v}\n{1.5 + v},{2.5 + v}\n")
@@ -130,8 +131,16 @@ def base_params(shape="granular"):
 
 def dict_version(vw, programs, inp, v):
     if inp == "vw":
-        # content number v: repair cost 200 + v, simulated period period_of(v) (see cache_extract.PERIODS)
+        # content number v: repair cost 200 + v, simulated period period_of(v) (see cache_extract.PERIODS), and
+        # v % 4 selects the values of the leaves that shape a scenario: 0 defaults, 1 pre-simulation emissions
+        # off, 2 one emission per source at a time (both kinds), 3 short durations (both kinds)
         vw[pc.Virtual_World_Params.REPAIR][pc.Virtual_World_Params.REPAIR_COST][pc.Common_Params.VAL] = [200.0 + v]
+        V = pc.Virtual_World_Params
+        sh = v % 4
+        vw[V.EMIS][V.PRE_SIM_EMIS] = sh != 1
+        for kind, dur in ((V.REPAIRABLE, 60), (V.NON_REPAIRABLE, 40)):
+            vw[V.EMIS][kind][V.MULTI_EMIS] = sh != 2
+            vw[V.EMIS][kind][V.DURATION] = (5 if kind == V.REPAIRABLE else 7) if sh == 3 else dur
         off, days = period_of(v)
         a = BASE_DAY + timedelta(days=off)
         b = a + timedelta(days=days - 1)
@@ -191,6 +200,9 @@ class Inputs:
     @property
     def end(self):
         return date(*self.vw[pc.Virtual_World_Params.END_DATE])
+
+    def scenario_rules(self):
+        return rules_from_vw(self.vw, source_level=False)
 
     @property
     def pre_sim(self):
@@ -487,6 +499,10 @@ def _load(path):
         return "torn", None
 
 
+class Ambiguous(list):
+    """several version vectors give this very object (the correspondence accepts any of them)"""
+
+
 class World:
     def __init__(self, root, ref):
         self.root = root
@@ -651,6 +667,18 @@ class World:
                         out[fid] = hashlib.sha1(fh.read()).hexdigest()
         return out
 
+    def implied(self, i):
+        """violations of what the current configuration implies, read off the stored scenario i"""
+        st, obj = _load(self.emis_path(i))
+        if st != "ok":
+            return []
+        rules = self.inputs.scenario_rules()
+        with open(self.emis_path(i), "rb") as fh:
+            key = ("implied", hashlib.sha1(fh.read()).hexdigest(), repr(sorted(rules.items(), key=str)))
+        if key not in self._dcache:
+            self._dcache[key] = implied_violations(obj, rules)
+        return self._dcache[key]
+
     def body_digest(self, i):
         """digest of the emission list of scenario i without its simulation-number key"""
         st, obj = _load(self.emis_path(i))
@@ -705,7 +733,8 @@ class World:
                 for si in sorted(self.seed_at.get(i, ())):
                     if self.ref.emis_digest(vv, s0, si, i) == dg:
                         hits.add(vv)
-        return sorted(hits)[0] if len(hits) == 1 else None
+        # a sparse scenario can be the same under two visited version vectors: all of them are reported
+        return sorted(hits)[0] if len(hits) == 1 else (Ambiguous(sorted(hits)) if hits else None)
 
     def _hash_rev(self):
         """hash value -> version number, for every input and version (built with the code's own
@@ -731,6 +760,8 @@ class World:
 
     @staticmethod
     def show_gen(vv, gid):
+        if isinstance(vv, Ambiguous):
+            return "|".join(World.show_gen(x, gid) for x in vv)
         return (".".join(map(str, vv)) if vv is not None else "?") + "g" + ("?" if gid is None else str(gid))
 
     def abstract(self, b):
@@ -780,6 +811,57 @@ class World:
             return "error", f"{type(e).__name__}: {e}"[:160]
         p = self.gen / Generator_Files.GEN_INFRA_EMISS.format(i=i)
         return self._digest_file(p, "emis")
+
+
+def rules_from_vw(vw, source_level):
+    """what the virtual-world leaves that shape a scenario imply for every emission of it
+    (source_level: durations are overridden per source in the sources file, not checked)"""
+    V = pc.Virtual_World_Params
+    e = vw[V.EMIS]
+    return {"pre_sim": bool(e[V.PRE_SIM_EMIS]), "start": date(*vw[V.START_DATE]), "end": date(*vw[V.END_DATE]),
+            "duration": {True: int(e[V.REPAIRABLE][V.DURATION]), False: int(e[V.NON_REPAIRABLE][V.DURATION])},
+            "multi": {True: bool(e[V.REPAIRABLE][V.MULTI_EMIS]), False: bool(e[V.NON_REPAIRABLE][V.MULTI_EMIS])},
+            "source_level": source_level}
+
+
+def _emission_lists(o):
+    if isinstance(o, dict):
+        for v in o.values():
+            yield from _emission_lists(v)
+    elif isinstance(o, list) and o and hasattr(o[0], "__dict__"):
+        yield o
+
+
+def implied_violations(scenario, rules):
+    """check a stored scenario against what the configuration implies, reading the emissions themselves:
+    no start before the period when pre-simulation emissions are off, none after its end, every emission
+    carries the configured duration of its kind, and with multiple emissions per source off the starts
+    of one source are more than a duration apart"""
+    from datetime import timedelta as _td
+    bad = []
+    for lst in _emission_lists(scenario):
+        starts = []
+        for e in lst:
+            d = vars(e)
+            rep = bool(d.get("_repairable"))
+            sd = d.get("_start_date")
+            dur = d.get("_nrd") if "_nrd" in d else d.get("_duration")
+            if sd is None or dur is None:
+                bad.append("emission without start date / duration attribute")
+                continue
+            if not rules["pre_sim"] and sd < rules["start"]:
+                bad.append(f"start {sd} before the period although pre-simulation emissions are off")
+            if sd > rules["end"]:
+                bad.append(f"start {sd} after the period")
+            if not rules["source_level"] and int(dur) != rules["duration"][rep]:
+                bad.append(f"duration {dur} instead of the configured {rules['duration'][rep]}")
+            starts.append((sd, rep))
+        if starts and not rules["source_level"] and not rules["multi"][starts[0][1]]:
+            ss = sorted(s for s, _ in starts)
+            gap = _td(days=rules["duration"][starts[0][1]])
+            if any(b <= a + gap and b >= rules["start"] and a >= rules["start"] for a, b in zip(ss, ss[1:])):
+                bad.append("two emissions of one source within one duration although multiple emissions are off")
+    return sorted(set(bad))[:4]
 
 
 @contextlib.contextmanager
